@@ -23,7 +23,14 @@ def universe(thorough):
       ("('a',)", lambda: ('a',)), ("('a','b')", lambda: ('a', 'b')),
       ('{}', lambda: {}), ("{'a':0}", lambda: {'a': 0}), ("{'a':1}", lambda: {'a': 1}),
       ("{'a':0,'b':1}", lambda: {'a': 0, 'b': 1}), ("{'b':1,'a':0}", lambda: {'b': 1, 'a': 0}),
-      ("{'b':0}", lambda: {'b': 0}),
+      ("{'b':0}", lambda: {'b': 0}), ("{'a':MISSING}", lambda: {'a': MISSING}), ("{'b':MISSING}", lambda: {'b': MISSING}),
+      ("{'a':MISSING,'c':1}", lambda: {'a': MISSING, 'c': 1}), ("{'b':2,'c':1}", lambda: {'b': 2, 'c': 1}),
+      ("[{'a':MISSING}]", lambda: [{'a': MISSING}]), ("[{'b':1}]", lambda: [{'b': 1}]),
+      ('partial pg.Dict(c=1)', lambda: pg.Dict.partial(
+          c=1, value_spec=pg.typing.Dict([('a', pg.typing.Int()), ('c', pg.typing.Int())]))),
+      ('[1,2]', lambda: [1, 2]), ('[1.0,3]', lambda: [1.0, 3]), ('[True,4]', lambda: [True, 4]),
+      ("{'a':1,'b':2}", lambda: {'a': 1, 'b': 2}), ("{'a':1.0,'b':3}", lambda: {'a': 1.0, 'b': 3}),
+      ('[[1],2]', lambda: [[1], 2]), ('pg.List([[1],3])', lambda: pg.List([[1], 3])),
       ("{0:'x'}", lambda: {0: 'x'}), ("{0:'x','a':1}", lambda: {0: 'x', 'a': 1}), ("{'a':1,0:'x'}", lambda: {'a': 1, 0: 'x'}),
       ('pg.Dict(a=0)', lambda: pg.Dict(a=0)), ('pg.Dict(a=0,b=1)', lambda: pg.Dict(a=0, b=1)),
       ('pg.Dict(b=1,a=0)', lambda: pg.Dict(b=1, a=0)),
@@ -33,7 +40,7 @@ def universe(thorough):
       ('A(A(0))', lambda: A(x=A(x=0))), ('[A(0)]', lambda: [A(x=0)]), ("{'k':A(0)}", lambda: {'k': A(x=0)}),
       ('S([S(0)])', lambda: S(x=[S(x=0)])), ('A(MISSING)', lambda: A.partial(x=MISSING)),
   ]
-  if thorough:
+  if True:
     u += [
         ('-1', lambda: -1), ('0.0', lambda: 0.0), ("'ab'", lambda: 'ab'), ('[0,0]', lambda: [0, 0]), ('[1,0]', lambda: [1, 0]),
         ("[0,'a']", lambda: [0, 'a']), ('[[]]', lambda: [[]]), ('[[0],1]', lambda: [[0], 1]), ('[(0,)]', lambda: [(0,)]),
@@ -50,7 +57,50 @@ def universe(thorough):
         ('[A(0),A(1)]', lambda: [A(x=0), A(x=1)]), ('[A(1),A(0)]', lambda: [A(x=1), A(x=0)]),
         ("{'k':[A(0)]}", lambda: {'k': [A(x=0)]}), ('[True]', lambda: [True]), ('[1.0]', lambda: [1.0]),
     ]
-  return u
+  if thorough:
+    u += generated()
+  seen = set()
+  out = []
+  for n, m in u:
+    if n not in seen:
+      seen.add(n)
+      out.append((n, m))
+  return out
+
+
+def generated():
+  """Systematically generated values: all short lists / tuples / dicts (every key order) / objects over small alphabets."""
+  import itertools
+  A, S = fx.EqA, fx.EqS
+  atoms = [('MISSING', MISSING), ('None', None), ('False', False), ('True', True), ('0', 0), ('1', 1), ('1.5', 1.5),
+           ("''", ''), ("'a'", 'a')]
+  out = []
+  def const(v):
+    return lambda: v
+  for n in (1, 2):
+    for combo in itertools.product(atoms, repeat=n):
+      vals = [v for _, v in combo]
+      out.append(('[' + ','.join(k for k, _ in combo) + ']', (lambda vals=vals: list(vals))))
+  for base in ([0, 1], ['', 'a']):
+    for n in (1, 2):
+      for combo in itertools.product(base, repeat=n):
+        out.append((repr(tuple(combo)).replace(' ', ''), const(tuple(combo))))
+  keys = ['a', 'b', 0]
+  vals = [0, 1, None, MISSING]
+  for k in keys:
+    for v in vals:
+      out.append((repr({k: v}).replace(' ', '').replace('MISSING_VALUE', 'MISSING'), (lambda k=k, v=v: {k: v})))
+  for k1, k2 in itertools.permutations(keys, 2):
+    for v1, v2 in itertools.product(vals, repeat=2):
+      out.append((repr({k1: v1, k2: v2}).replace(' ', '').replace('MISSING_VALUE', 'MISSING'), (lambda k1=k1, k2=k2, v1=v1, v2=v2: {k1: v1, k2: v2})))
+      if v1 == 0:
+        out.append(('pg.Dict(' + repr({k1: v1, k2: v2}).replace(' ', '') + ')',
+                    (lambda k1=k1, k2=k2, v1=v1, v2=v2: pg.Dict({k1: v1, k2: v2}))))
+  for k, v in atoms:
+    out.append((f'A({k})', (lambda v=v: A.partial(x=v))))
+    out.append((f'S({k})', (lambda v=v: S.partial(x=v))))
+    out.append((f'[A({k})]', (lambda v=v: [A.partial(x=v)])))
+  return out
 
 
 def cat(v):
